@@ -26,6 +26,8 @@ def dispatch (st : DriverState) (sub : String) (args : List String) : DriverStat
   | "shrink" => (st, Drivers.Shrink.handle args)
   | "flat" => (st, Drivers.Flat.handle args)
   | "db" => (st, Drivers.DeBruijn.handle args)
+  | "schema" | "schemaraw" | "validate" | "vraw" | "inhabits" | "encode" | "tag" | "apply" | "applyp" =>
+    (st, Drivers.Schema.handle sub args)
   | _ => (st, "unknown-subcommand")
 
 partial def loop (h : IO.FS.Stream) (out : IO.FS.Stream) (st : DriverState) : IO Unit := do
